@@ -244,6 +244,13 @@ class SqlalchemyRender:
                 func = functions[t.op.lower()]
                 col = func(arg0, arg1)
             else:
+                # an operator sqlalchemy has no rank for ("->", "->>", "~"): it never puts parentheses around the
+                # operands of such an operator, so the grouping of the statement is made explicit here
+                compound = (ast.BinaryOperation, ast.UnaryOperation, ast.BetweenOperation)
+                if isinstance(t.args[0], compound):
+                    arg0 = sa.sql.elements.Grouping(arg0)
+                if isinstance(t.args[1], compound):
+                    arg1 = sa.sql.elements.Grouping(arg1)
                 col = arg0.op(t.op)(arg1)
 
             if t.alias:
